@@ -12,6 +12,13 @@ PROBES `-` or `lon,lat,m` joined by `;`          rates: one per probe, `x` = Val
 OPS    `-` or `s,v` / `t,v` / `t,none` joined by `;`   (scale(v) / scale_to_test_date inside / outside the period)
 cells  `lon0,lon1,lat0,lat1,flag` joined by `;`
 data   fl64 of every `_data * _scale` after OPS; total / spatial / magnitude are exact sums of the exact products
+
+`c11_hist SWAP DLO DHI ROWS PTS CALLS POS NY NX` → one record per read-only call, joined by `|`, then `F:factor`
+CALLS  `-` or scale calls as in OPS and read-only calls `r,tr1,DAYS` (target_event_rates(scale=True)) / `r,tr0` / `r,gr`
+       (get_rates) / `r,sum` / `r,ec` / `r,sc` / `r,scc` (spatial_counts(cartesian=True)) / `r,mc` / `r,data`, joined by `;`
+PTS    the target events / lookup points, as PROBES;   POS `-` or `row:column` of every cell on the bounding-box lattice
+records `R:rates:total` (`x` = ValueError, total `-` when the call returns none) / `S:v` / `V:v,…` / `G:row;row` (`nan`)
+       all exact rationals of the exact products base · factor (/ days)
 -/
 namespace Drive.C11
 open Proto ForecastFile
@@ -56,7 +63,47 @@ def all (swap dlo dhi rows probes ops : String) : String :=
         showRat (total G), showList showRat (spatialCounts G), showList showRat (magnitudeCounts G)]
   | _, _, _, _, _ => "bad-op"
 
+def parseCall? (s : String) : Option Call :=
+  match s.splitOn "," with
+  | ["r", "tr1", d] => (parseRat? d).map (fun d => Call.read (.targetRates (some d)))
+  | ["r", "tr0"] => some (.read (.targetRates none))
+  | ["r", "gr"] => some (.read .rates)
+  | ["r", "sum"] => some (.read .sum)
+  | ["r", "ec"] => some (.read .sum)
+  | ["r", "sc"] => some (.read .spatial)
+  | ["r", "scc"] => some (.read .spatialCartesian)
+  | ["r", "mc"] => some (.read .magnitude)
+  | ["r", "data"] => some (.read .data)
+  | _ => (parseOp? s).map Call.write
+
+def parsePos? (s : String) : Option (Nat × Nat) :=
+  match s.splitOn ":" with
+  | [a, b] => do let a ← a.toNat?; let b ← b.toNat?; pure (a, b)
+  | _ => none
+
+def showORat : Option Rat → String
+  | some r => showRat r
+  | none => "x"
+
+def showObs : Obs → String
+  | .rates r t => "R:" ++ showList showORat r ++ ":" ++ (match t with | some t => showRat t | none => "-")
+  | .scalar v => "S:" ++ showRat v
+  | .vec v => "V:" ++ showList showRat v
+  | .grid g => "G:" ++ semi (g.map (showList (fun o => match o with | some r => showRat r | none => "nan")))
+
+def hist (swap dlo dhi rows pts calls pos ny nx : String) : String :=
+  match parseRat? dlo, parseRat? dhi, parseSemi? parseRow? rows, parseSemi? parseProbe? pts, parseSemi? parseCall? calls,
+        parseList? parsePos? pos, ny.toNat?, nx.toNat? with
+  | some dlo, some dhi, some rows, some pts, some calls, some pos, some ny, some nx =>
+    match load (swap = "1") dlo dhi rows with
+    | none => "none"
+    | some F =>
+      let r := runCalls ⟨pts, pos, ny, nx⟩ F calls
+      "|".intercalate (r.2.map showObs ++ ["F:" ++ showRat r.1.scale])
+  | _, _, _, _, _, _, _, _ => "bad-op"
+
 def handle : List String → Option String
   | ["c11_all", swap, dlo, dhi, rows, probes, ops] => some (all swap dlo dhi rows probes ops)
+  | ["c11_hist", swap, dlo, dhi, rows, pts, calls, pos, ny, nx] => some (hist swap dlo dhi rows pts calls pos ny nx)
   | _ => none
 end Drive.C11
